@@ -256,7 +256,7 @@ impl Unbuilder {
         Unbuilder { ids: HashMap::new(), non_any: vec![] }
     }
 
-    pub fn term(&mut self, t: &LT) -> Term {
+    pub fn term<U2: User, E2: Engine<U2>>(&mut self, t: &LTerm<U2, E2>) -> Term {
         match t.as_ref() {
             LTermInner::Val(LValue::Number(n)) => Term::Int(*n as i64),
             LTermInner::Val(LValue::Bool(b)) => Term::Bool(*b),
@@ -309,7 +309,7 @@ impl Unbuilder {
 // ---------------------------------------------------------------------------------------
 // harness-defined relations, written with the macros like the library's own relations
 
-pub fn nat<G: Kinded>(x: LT) -> InferredGoal<U, E, G> {
+pub fn nat<U2: User, E2: Engine<U2>, G: AnyGoal<U2, E2>>(x: LTerm<U2, E2>) -> InferredGoal<U2, E2, G> {
     use proto_vulcan::operator::conde::cond;
     proto_vulcan_closure!(cond {
         x == [],
@@ -317,7 +317,7 @@ pub fn nat<G: Kinded>(x: LT) -> InferredGoal<U, E, G> {
     })
 }
 
-pub fn lenle<G: Kinded>(l: LT, n: LT) -> InferredGoal<U, E, G> {
+pub fn lenle<U2: User, E2: Engine<U2>, G: AnyGoal<U2, E2>>(l: LTerm<U2, E2>, n: LTerm<U2, E2>) -> InferredGoal<U2, E2, G> {
     use proto_vulcan::operator::conde::cond;
     proto_vulcan_closure!(cond {
         l == [],
@@ -325,7 +325,7 @@ pub fn lenle<G: Kinded>(l: LT, n: LT) -> InferredGoal<U, E, G> {
     })
 }
 
-pub fn downfrom<G: Kinded>(n: LT, l: LT) -> InferredGoal<U, E, G> {
+pub fn downfrom<U2: User, E2: Engine<U2>, G: AnyGoal<U2, E2>>(n: LTerm<U2, E2>, l: LTerm<U2, E2>) -> InferredGoal<U2, E2, G> {
     use proto_vulcan::operator::conde::cond;
     proto_vulcan_closure!(cond {
         [n == [], l == []],
@@ -333,7 +333,7 @@ pub fn downfrom<G: Kinded>(n: LT, l: LT) -> InferredGoal<U, E, G> {
     })
 }
 
-pub fn diverge<G: Kinded>() -> InferredGoal<U, E, G> {
+pub fn diverge<U2: User, E2: Engine<U2>, G: AnyGoal<U2, E2>>() -> InferredGoal<U2, E2, G> {
     proto_vulcan_closure!(diverge())
 }
 
@@ -427,10 +427,10 @@ pub fn build_goal<G: Kinded>(g: &ast::Goal, env: &Env) -> G {
                 Rel::First => relation::first::<U, E, G>(a[0].clone(), a[1].clone()).cast_into(),
                 Rel::Rest => relation::rest::<U, E, G>(a[0].clone(), a[1].clone()).cast_into(),
                 Rel::Empty => relation::empty::<U, E, G>(a[0].clone()).cast_into(),
-                Rel::Nat => nat::<G>(a[0].clone()).cast_into(),
-                Rel::LenLe => lenle::<G>(a[0].clone(), a[1].clone()).cast_into(),
-                Rel::Downfrom => downfrom::<G>(a[0].clone(), a[1].clone()).cast_into(),
-                Rel::Diverge => diverge::<G>().cast_into(),
+                Rel::Nat => nat::<U, E, G>(a[0].clone()).cast_into(),
+                Rel::LenLe => lenle::<U, E, G>(a[0].clone(), a[1].clone()).cast_into(),
+                Rel::Downfrom => downfrom::<U, E, G>(a[0].clone(), a[1].clone()).cast_into(),
+                Rel::Diverge => diverge::<U, E, G>().cast_into(),
             }
         }
         A::Fd(f) => {
